@@ -33,7 +33,9 @@ interleaving, the seventh away from the kinds of slip the earlier waves had favo
 buffers, batching indices, lost errors), the eighth to breakage that depends on concurrency or on
 the environment rather than on an input value (interleavings, relative speed, pooled objects,
 legal corner behaviour of readers, writers and randomness sources; adding a goroutine, a lock, a
-cache or a timeout "for speed" or "for robustness" was welcome).
+cache or a timeout "for speed" or "for robustness" was welcome), the ninth to breakage introduced
+by a robustness or performance feature that involves time or parallelism (time-outs, deadlines,
+retries with back-off, worker pools sized by `runtime.NumCPU()`, loops split across goroutines).
 All %d changes were
 confirmed by `bin/confirm-seeded` (patch applies to HEAD; `go build ./...`; `go test` of every
 package except the root passes; the demonstration fails with the change and passes without it) and
@@ -44,7 +46,7 @@ touching /repo); %d own mutants live under `/verif/mutants/` (hand-made ones and
 commit reversed).
 
 %d of the %d were **missed at first** (%s; three of the five of the sixth wave and one of the
-eighth were strengthened from the sub-agent's report before the first run against them; one more
+eighth and eight of the ninth were strengthened from the sub-agent's report before the first run against them; one more
 of the seventh is caught by the check of the property it really breaks, C15, not by C16's) and led
 to the extensions marked below; no oracle was loosened or tightened for
 them - only workloads, fault kinds, scheduling points, the independence of the harness's
@@ -54,7 +56,12 @@ nine of them break a property only when *one process does two things at once* (t
 compilations, two parses, a background goroutine racing its caller) or when the environment
 behaves legally but unusually (a stalling randomness source, a transport that consumes its
 payload late, a clock) - dimensions the worlds had, until then, only where the unchanged code
-already had goroutines.
+already had goroutines. The ninth wave tested the seams built for the eighth: all fourteen changes
+use `time`, connection deadlines, `runtime.GOMAXPROCS` or added goroutines; six were caught at
+once, eight after a workload extension made from the sub-agent's report before the first run
+against the change (per-party and per-job CPU counts, wide CPU counts, a thousand input wires,
+wide outputs, busy receivers and stalling links, start delays of minutes) - and one of them
+(C14-i) first ended in exit 2, because a rewritten `go` statement ran in a package's `init`.
 
 ''' % (ordn[len(waves) - 1].capitalize(), len(rows), len(own), len(missed), len(rows), per_wave)
 out += '''| change | property | what was changed | needs | clause that fires | missed at first? |
@@ -130,6 +137,18 @@ What the misses taught (kept as rules for the workloads):
   `time` were refused or real (now simulated).
 * Statement granularity is not sub-statement granularity: `x = grow(x)` copies and installs in
   one statement unless the helper has scheduling points of its own (C10-h).
+
+* The machine is part of the environment: code that splits work by `runtime.NumCPU()` or
+  `GOMAXPROCS` behaves differently on a 1-, 3-, 28- or 96-CPU host, and the two parties of a
+  protocol are different hosts (C02-i, C06-i, C08-i, C15-i, C18-i, C20-i). The CPU count is a
+  per-party tape choice now; the determinism self-test (real GOMAXPROCS 1/4/16) would otherwise
+  have turned every such change into exit 2.
+* Time is part of the environment: a deadline or time-out is harmless until a peer is a minute
+  late, an application is busy, a link stalls (C05-i, C10-i, C11-i, C19-i and, in the eighth wave,
+  C19-h). Virtual time makes "ten minutes late" cost microseconds.
+* Library code runs before any run starts (package `init`): goroutines started there live in the
+  ambient world (C14-i).
+* Sizes again: a thousand input wires (C04-i), results of several machine words (C16-i).
 
 Own mutants (`/verif/mutants/*.diff`; `revert-<commit>` is a `fix:` commit reversed): ''' + ', '.join(own) + '''.
 
